@@ -365,6 +365,18 @@ class MTVRPEnv(RL4COEnvBase):
         _check_c1("demand_linehaul")
         _check_c1("demand_backhaul")
 
+        # Backhaul precedence (B): within a route, no linehaul customer after a backhaul customer
+        # (the rule get_action_mask enforces through `is_carrying_backhaul`)
+        carrying_backhaul = torch.zeros(batch_size, dtype=torch.bool, device=td.device)
+        for ii in range(actions.size(1)):
+            node = actions[:, ii : ii + 1]
+            is_linehaul = td["demand_linehaul"].gather(1, node).squeeze(1) > 0
+            is_backhaul = td["demand_backhaul"].gather(1, node).squeeze(1) > 0
+            assert not (
+                carrying_backhaul & is_linehaul
+            ).any(), "Linehaul customer served after a backhaul customer in the same route"
+            carrying_backhaul = (carrying_backhaul | is_backhaul) & (node.squeeze(1) != 0)
+
     def load_data(self, fpath, batch_size=[], scale=False):
         """Dataset loading from file
         Normalize demand by capacity to be in [0, 1]
